@@ -621,6 +621,7 @@ type world struct {
 	judged bool
 	probeN int // availability probes (Gets of absent Things) seen in the judged Compose
 	failAt int // fail the failAt-th probe (0 = none)
+	noMatch bool // ... with "no matches for kind"
 }
 
 func (w *world) idOf(name string) string {
@@ -640,7 +641,7 @@ func tname(i int) string { return fmt.Sprintf("t%d", i) }
 func templates(in input, judged bool) []v1.ComposedTemplate {
 	var out []v1.ComposedTemplate
 	for i := 1; i <= in.N; i++ {
-		if !judged && in.Kind == "namegen" && i == in.Fail {
+		if !judged && (in.Kind == "namegen" || in.Kind == "namegen-nomatch") && i == in.Fail {
 			continue // the template whose name generation fails is new in the judged Compose
 		}
 		t := v1.ComposedTemplate{Name: ptr.To(tname(i)),
@@ -718,6 +719,9 @@ func runCompose(in input) (map[string]any, string) {
 		if w.judged && cl.Key.Kind == "Thing" && cl.Verb == "get" && s.Peek(cl.Key) == nil {
 			w.probeN++
 			if w.probeN == w.failAt {
+				if w.noMatch {
+					return simapi.FailNoMatch
+				}
 				return simapi.FailError
 			}
 		}
@@ -774,7 +778,8 @@ func runCompose(in input) (map[string]any, string) {
 			}
 		})
 	}
-	if in.Kind == "namegen" {
+	if in.Kind == "namegen" || in.Kind == "namegen-nomatch" {
+		w.noMatch = in.Kind == "namegen-nomatch"
 		w.failAt = in.Fail
 		if in.Phase == "update" {
 			w.failAt = 1
